@@ -124,7 +124,7 @@ Qed.
 
 Lemma pstep_inv n s o : PInv s -> PInv (pstep n s o).
 Proof.
-  intros HI. destruct o as [b t|h k|h|h ph|h|b]; cbn [pstep].
+  intros HI. destruct o as [b t|h k|h|h ph|h|b|h]; cbn [pstep].
   - apply p_lookup_inv; exact HI.
   - destruct (nth_error (phandles s) h) as [id|]; [|exact HI].
     destruct (nth_error (mkrs s) id) as [m|]; [apply mk_patch_inv|]; exact HI.
@@ -135,6 +135,7 @@ Proof.
     destruct (nth_error (mkrs s) id) as [m|]; [apply with_mkr_inv|]; exact HI.
   - destruct (nth_error (phandles s) h) as [id|]; [apply p_cancel_inv|]; exact HI.
   - apply p_reset_inv; exact HI.
+  - exact HI.
 Qed.
 
 (* MAIN: every finite history over any number of builders, targets, handles and placeholders *)
